@@ -512,6 +512,9 @@ func (a *Act) run(reach string, st State, args []Val) {
 		}
 		// captured variables are visible to contracts under their source name (read through the cell)
 		a.names[fv.Name()] = append(a.names[fv.Name()], nameDef{v: fv, blk: a.fn.Blocks[0], idx: -1, addr: true, isPhi: true})
+		pv := a.vals[fv]
+		pv.S = "$addr"
+		a.params[fv.Name()] = pv
 	}
 	if len(a.fn.Blocks) == 0 {
 		g.problem("%s: no body", a.key)
